@@ -93,7 +93,7 @@ impl Timer {
 //@ rw R8 1 <<process_events<F>>> => <<process_events<CbF>>>
 //@ rw R8 1 <<mut callback: F,>> => <<mut callback: CbF,>>
 //@ rw R8 1 <<F: FnMut(Self::Event>> => <<CbF: FnMut(Self::Event>>
-//@ rw R2 1 <<_: Readiness>> => <<_readiness: Readiness>>
+//@ rw R2 * <<_: Readiness>> => <<_readiness: Readiness>>
 //@ spec
         ensures
             // exactly-once bookkeeping of the result: Drop => Remove (deadline kept), ToInstant(i) => deadline i
